@@ -106,8 +106,12 @@ class C17(object):
     def gen(self, rng, tier, k):
         ngen = rng.randint(1, 3)
         gens = []
-        for _ in range(ngen):
+        for gi_ in range(ngen):
             body = gen_body(rng)
+            if k % 50 == 21 and gi_ == 0:
+                # far more consecutive awaits of already computed futures than the interpreter's
+                # recursion limit, before the next Value
+                body = body[:2] + [["a", False]] * rng.choice([1100, 1500]) + [["v", 7]] + body[2:4]
             ops = []
             for _ in range(rng.randint(1, 5)):
                 r = rng.random()
@@ -251,8 +255,10 @@ class C17(object):
                     exp = ref[consumed:consumed + n]
                     probes["take_first_%s" % ("0" if n == 0 else "n")] = probes.get("take_first_%s" % ("0" if n == 0 else "n"), 0) + 1
                     if not _same_list(vals, exp):
-                        out.append(("take-values", "take_first(gen, %d) after %d values gave %r, expected %r (body %r)" % (n, consumed, vals, exp, body)))
+                        out.append(("take-values", "take_first(gen, %d) after %d values gave %r, expected %r (body %r)" % (n, consumed, vals, exp[:8], str(body)[:300])))
                         return
+                    if isinstance(vals, list):
+                        vals.append("caller's own addition")  # the returned list belongs to the caller
                     consumed += len(exp)
                     if any(v is END_OF_GENERATOR for v in vals):
                         out.append(("end-marker", "END_OF_GENERATOR leaked into a result"))
